@@ -49,16 +49,28 @@ def pinned(wt):
 
 
 def main():
-    wt, prop, tag = sys.argv[1:4]
-    checks = sys.argv[4:] or [prop]
+    args = [a for a in sys.argv[1:] if a != '--checks-only']
+    checks_only = '--checks-only' in sys.argv
+    wt, prop, tag = args[0:3]
+    checks = args[3:] or [prop]
     sid = '%s-%s' % (prop, tag)
     dst = os.path.join(HERE, 'seeded', sid)
     os.makedirs(dst, exist_ok=True)
     demo = glob.glob(os.path.join(wt, 'demo_*.py'))[0]
-    for f in ('patch.diff', 'meta.json', os.path.basename(demo)):
-        shutil.copy(os.path.join(wt, f), dst)
+    if not checks_only:
+        for f in ('patch.diff', 'meta.json', os.path.basename(demo)):
+            shutil.copy(os.path.join(wt, f), dst)
     env = dict(os.environ, PYTHONPATH=wt, PYTHONWARNINGS='ignore')
     ver = {'at': time.strftime('%Y-%m-%d %H:%M')}
+    if checks_only:
+        old_ = json.load(open(os.path.join(dst, 'meta.json'))).get(
+            'lead_verification', {})
+        for k in ('patch_matches_worktree', 'demo_exit_with_change',
+                  'demo_exit_without_change', 'pinned_without_change',
+                  'pinned_with_change', 'pinned_same_failing_set',
+                  'confirmed'):
+            ver[k] = old_.get(k)
+        return run_checks(wt, dst, prop, checks, ver)
     # the patch must be exactly the working-tree change
     rc, diff = sh(['git', 'diff', '--', 'bert_e'], wt)
     ver['patch_matches_worktree'] = (diff.strip() == open(os.path.join(
@@ -81,6 +93,10 @@ def main():
     ver['pinned_with_change'] = summ
     ver['pinned_same_failing_set'] = (bad == base_bad)
     ver['confirmed'] = (rc_with != 0 and rc_without == 0 and bad == base_bad)
+    run_checks(wt, dst, prop, checks, ver)
+
+
+def run_checks(wt, dst, prop, checks, ver):
     ver['checks'] = {}
     for c in checks:
         vh = tempfile.mkdtemp(prefix='vf-mh-')
